@@ -311,7 +311,7 @@ func runC10(t *testing.T, s C10Scenario) (res Result) {
 			res.failf("HARNESS: server: %v", err)
 			return
 		}
-		_ = srv.Start(context.Background())
+		_ = startScoped(srv.Start)
 		defer srv.Stop(context.Background()) //nolint:errcheck
 		if err := ne.connectAll(); err != nil {
 			res.failf("HARNESS: connect: %v", err)
@@ -466,7 +466,7 @@ func FuzzC10Request(f *testing.F) {
 				p2p.WithReadDeadline[p2p.ServerParameters](c10Read),
 				p2p.WithRequestTimeout[p2p.ServerParameters](c10Req_),
 				p2p.WithWriteDeadline[p2p.ServerParameters](c10Write))
-			_ = srv.Start(context.Background())
+			_ = startScoped(srv.Start)
 			defer srv.Stop(context.Background()) //nolint:errcheck
 			_ = ne.connectAll()
 			ctx, cancel := vctx(30 * time.Second)
